@@ -639,7 +639,7 @@ class ExprMixin:
             c = state.heap.get(obj.loc)
             if c is not None and isinstance(c.obj, InstObj):
                 if state.pc and isinstance(v, (Num, Bool, Str)):
-                    v = replace(v, prov=v.prov | state.pc)
+                    v = self.with_pc(v, state)
                 self._record_write(state, obj, attr, node, kind="attr", val=v)
                 self.write_field(state, obj, attr, v, node)
                 return
@@ -804,7 +804,7 @@ class ExprMixin:
             if c is None:
                 return
             if state.pc and isinstance(v, (Num, Bool, Str)):
-                v = replace(v, prov=v.prov | state.pc)
+                v = self.with_pc(v, state)
             self._record_container_mutation(state, obj, node, "set-item")
             if isinstance(c.obj, DictObj):
                 self.bi.dict_set(state, obj, key, v, node)
